@@ -1120,6 +1120,204 @@ def work_mls(arg):
     return out
 
 
+# ------------------------------------------------------------------------------------------------
+# G-stub: compound statements whose whole body is one docstring / constant / `...` / `pass` statement (stubs,
+# protocol methods, abstract methods), in the own-line and the one-line layout, with headers that read names
+# spelled like the statement's own name or like the names it binds (parameters, targets).  G-prog bodies always
+# do something and carry no docstrings.
+
+STUB_CONSTRUCTS = ('def', 'async-def', 'method', 'nested-def', 'decorated-def', 'class', 'decorated-class', 'for',
+                   'async-for', 'with', 'except', 'walrus-if', 'walrus-while', 'try-finally')
+STUB_BODIES = ('docstring', 'triple-docstring', 'multi-line-docstring', 'ellipsis', 'pass', 'constant', 'bytes',
+               'docstring+pass', 'docstring+constant', 'fstring', 'none')
+STUB_HEADERS = ('default-own-name', 'default-param', 'annotation-own-name', 'annotation-param', 'returns-own-name',
+                'returns-param', 'kwonly-default-own-name', 'vararg-annotation-param', 'two-defaults')
+
+
+def stub_body(kind, rng):
+    """-> list of simple statements"""
+    doc = rng.choice(['"doc"', "'Return the thing.'", 'r"doc\\d"', 'u"doc"'])
+    if kind == 'docstring':
+        return [doc]
+    if kind == 'triple-docstring':
+        return [rng.choice(['"' * 3, "'" * 3]).join(['', 'Return the thing.', ''])]
+    if kind == 'multi-line-docstring':
+        q3 = rng.choice(['"' * 3, "'" * 3])
+        return ['%sReturn the thing.\n\n    more\n    %s' % (q3, q3)]
+    if kind == 'ellipsis':
+        return ['...']
+    if kind == 'pass':
+        return ['pass']
+    if kind == 'constant':
+        return [rng.choice(['0', '1.5', 'True', '(0)'])]
+    if kind == 'none':
+        return ['None']
+    if kind == 'bytes':
+        return ['b"doc"']
+    if kind == 'fstring':
+        return ['f"doc"']
+    if kind == 'docstring+pass':
+        return [doc, 'pass']
+    if kind == 'docstring+constant':
+        return [doc, rng.choice(['...', '0'])]
+    raise ValueError(kind)
+
+
+def stub_pair(construct, body_kind, header, rng):
+    """-> (own-line layout, one-line layout) or None"""
+    body = stub_body(body_kind, rng)
+    name = rng.choice(['retry', 'again', 'handler', 'f'])
+    par = rng.choice(['times', 'fn', 'p'])
+    par2 = rng.choice(['limit', 'k', 'r'])
+    out = ['from vf_rt import v, q, it, cm, m, d, dd, et']
+    bound = []
+    for n in (name, par, par2):
+        if rng.random() < 0.6:
+            out.append('%s = v()' % n)          # bound earlier in the enclosing scope
+            bound.append(n)
+    ind = ''
+    if construct == 'method':
+        out.append('class Host:')
+        ind = '    '
+        if rng.random() < 0.5:
+            out.append('%s%s = v()' % (ind, name))
+    elif construct == 'nested-def':
+        out.append('def outer(%s):' % rng.choice([par, 'z', name]))
+        ind = '    '
+        if rng.random() < 0.4:
+            out.append('%s%s = v()' % (ind, name))
+    pre = []           # lines above the header (decorators)
+    tail = []          # statements after the compound statement
+    if construct in ('def', 'async-def', 'method', 'nested-def', 'decorated-def'):
+        kw = 'async def' if construct == 'async-def' else 'def'
+        first = 'self, ' if construct == 'method' and rng.random() < 0.7 else ''
+        ret = ''
+        if header == 'default-own-name':
+            params = '%s%s=%s' % (first, par, name)
+        elif header == 'default-param':
+            params = '%s%s, %s=%s' % (first, par, par2, par)
+        elif header == 'annotation-own-name':
+            params = '%s%s: %s' % (first, par, name)
+        elif header == 'annotation-param':
+            params = '%s%s: %s = None' % (first, par, par)
+        elif header == 'returns-own-name':
+            params, ret = '%s%s' % (first, par), ' -> %s' % name
+        elif header == 'returns-param':
+            params, ret = '%s%s' % (first, par), ' -> %s' % par
+        elif header == 'kwonly-default-own-name':
+            params = '%s%s, *, %s=%s' % (first, par, par2, name)
+        elif header == 'vararg-annotation-param':
+            params = '%s*%s: %s, **%s: %s' % (first, par, par, par2, name)
+        elif header == 'two-defaults':
+            params = '%s%s=%s, %s=v(%s, %s)' % (first, par, name, par2, par, name)
+        else:
+            raise ValueError(header)
+        if construct == 'decorated-def':
+            pre.append('@%s' % rng.choice(['d', 'dd(%s)' % name, 'dd(%s)' % par]))
+        head = '%s %s(%s)%s:' % (kw, name, params, ret)
+        tail.append('v(%s)' % name)
+    elif construct in ('class', 'decorated-class'):
+        base = {'default-own-name': name, 'default-param': 'v(%s)' % name, 'annotation-own-name': '%s, metaclass=%s' % (name, name),
+                'returns-own-name': 'metaclass=%s' % name}.get(header)
+        if base is None:
+            return None
+        if construct == 'decorated-class':
+            pre.append('@dd(%s)' % name)
+        head = 'class %s(%s):' % (name, base)
+        tail.append('v(%s)' % name)
+    elif construct in ('for', 'async-for'):
+        if header not in ('default-own-name', 'default-param', 'two-defaults'):
+            return None
+        if construct == 'async-for':
+            out.append('%sasync def co():' % ind)
+            ind += '    '
+        tgt = {'default-own-name': name, 'default-param': '%s, %s' % (name, par), 'two-defaults': '[%s, *%s]' % (name, par)}[header]
+        head = '%sfor %s in it(%s):' % ('async ' if construct == 'async-for' else '', tgt, name)
+        tail.append('v(%s)' % name)
+    elif construct == 'with':
+        if header not in ('default-own-name', 'default-param', 'two-defaults'):
+            return None
+        head = {'default-own-name': 'with cm(%s) as %s:' % (name, name),
+                'default-param': 'with cm(%s) as %s, cm(%s, %s) as %s:' % (name, name, name, par, par),
+                'two-defaults': 'with (cm(%s) as %s, cm(%s) as %s):' % (par, name, name, par)}[header]
+        tail.append('v(%s)' % name)
+    elif construct == 'except':
+        if header not in ('default-own-name', 'default-param'):
+            return None
+        out.append('%stry:' % ind)
+        out.append('%s    m(KeyError)' % ind)
+        head = 'except et(%s) as %s:' % (name if header == 'default-own-name' else par, name)
+        tail.append('v(%s)' % name)
+    elif construct in ('walrus-if', 'walrus-while'):
+        if header not in ('default-own-name', 'default-param'):
+            return None
+        head = '%s (%s := v(%s)) and q(%s):' % ('if' if construct == 'walrus-if' else 'while', name,
+                                                  name if header == 'default-own-name' else par, name)
+        tail.append('v(%s)' % name)
+    elif construct == 'try-finally':
+        if header != 'default-own-name':
+            return None
+        head = 'try:'
+        tail = None
+    else:
+        raise ValueError(construct)
+    lead = [ind + ln for ln in pre]
+    own = lead + [ind + head] + [ind + '    ' + st for st in body]
+    one = lead + [ind + head + rng.choice([' ', ' ', '']) + rng.choice(['; ', ';']).join(body)]
+    if tail is None:
+        fin = ['%sfinally:' % ind, '%s    %s = v(%s)' % (ind, name, name)]
+        own += fin + ['%sv(%s)' % (ind, name)]
+        one += ['%sfinally: %s = v(%s)' % (ind, name, name), '%sv(%s)' % (ind, name)]
+    else:
+        own += [ind + t for t in tail]
+        one += [ind + t for t in tail]
+    return '\n'.join(out + own) + '\n', '\n'.join(out + one) + '\n'
+
+
+def work_stub(arg):
+    """every construct x body x header shape, one random instantiation per rep: own-line vs one-line layout, and one of
+    the two against its normal form and k random re-layouts"""
+    seed, rep, k = arg
+    from vf import dynexec
+    part = core.Part()
+    mon = Monitor(part)
+    proj = dynexec.Project()
+    try:
+        for c in STUB_CONSTRUCTS:
+            for bk in STUB_BODIES:
+                for h in STUB_HEADERS:
+                    rng = random.Random('%s:C13:stub:%s:%s:%s:%s' % (seed, rep, c, bk, h))
+                    pr = stub_pair(c, bk, h, rng)
+                    if pr is None:
+                        continue
+                    a, b = pr
+                    name = '%s/%s/%s/%s' % (c, bk, h, rep)
+                    part.count('stub_programs')
+                    try:
+                        relayout.parse_quiet(a)
+                        relayout.parse_quiet(b)
+                    except SyntaxError:
+                        part.count('stub_programs_discarded:syntax(generator bug)')
+                        continue
+                    part.hist('stub_construct', c)
+                    part.hist('stub_body', bk)
+                    meta = {'kind': 'stub', 'index': name, 'seed': seed, 'root_kind': 'gen', 'base': 'stub-one-line',
+                            'layout': 'one-line'}
+                    A = analyse(a, proj.filename, proj.root)
+                    if mon.pair(A, b, meta, proj.filename, proj.root, 'stub:%s:%s' % (seed, name),
+                                {'one-line-compound': 1, 'stub-body': 1}):
+                        part.count('stub_pairs_compared(own-line vs one-line)')
+                    if k:
+                        meta = {'kind': 'stub', 'index': name, 'seed': seed, 'root_kind': 'gen'}
+                        mon.text(b if rng.random() < 0.3 else a, proj.filename, proj.root, meta,
+                                 'stub:%s:%s' % (seed, name), k, '%s:C13:stublayout:%s' % (seed, name))
+    finally:
+        proj.close()
+    out = part.dump()
+    _strip(out, proj.root)
+    return out
+
+
 def work_probes(arg):
     """hand-written layouts of the constructs whose visibility position supp synthesises"""
     seed, k = arg
@@ -1225,6 +1423,9 @@ def main(run):
     if group:
         jobs.append(['work_files', [run.seed, group, k]])
     jobs.append(['work_probes', [run.seed, k]])
+    stub_reps = run.pick(1, 8)
+    for r in range(stub_reps):
+        jobs.append(['work_stub', [run.seed, r, run.pick(1, 3)]])
     mls_reps = run.pick(2, 16)
     for r in range(mls_reps):
         jobs.append(['work_mls', [run.seed, r, 1, run.pick(2, 6)]])
@@ -1254,6 +1455,8 @@ def main(run):
         'generated_programs': ngen,
         'relayouts_per_text': '1 normal form + %d random' % k,
         'probes': len(PROBES),
+        'stub_body_programs': '%d constructs x %d bodies x %d header shapes (where applicable) x %d instantiations, own-line vs one-line + re-layouts' % (
+            len(STUB_CONSTRUCTS), len(STUB_BODIES), len(STUB_HEADERS), stub_reps),
         'multi_line_string_programs': '%d constructs x %d value shapes x %d instantiations, split vs joined + re-layouts' % (
             len(MLS_CONSTRUCTS), len(MLS_SHAPES), mls_reps),
     }
